@@ -8,7 +8,7 @@ def check(tier, seed):
     return G.generic_check(PID, "exploration", tier, seed, coq=False,
         rule='positions of random games and random placements (fresh from FEN): Evaluate repeated, on a second evaluator, after evaluating other positions, after do/undo excursions; vs the colour-mirrored position; 0 when HasInsufficientMaterial; position unchanged; under the 4 combinations of Eval_Lazy / Eval_AdvPiece; a case = one position',
         streams=[dict(name='evaluation_monitor', kind="monitor", shards=lambda t: 4 if t == "quick" else 16,
-                      args=lambda t, s, sh, path: ['c15-monitor', 2500 if q else 60000, s * 1000 + sh])])
+                      args=lambda t, s, sh, path: ['c15-monitor', 2500 if t == "quick" else 60000, s * 1000 + sh])])
 
 
 def replay(path):
